@@ -316,6 +316,11 @@ func encodeSingular(fd protoreflect.FieldDescriptor, v protoreflect.Value, o Enc
 
 // annFd carries the annotations, kindFd the kind (they differ for map values).
 func encodeScalarLike(annFd, kindFd protoreflect.FieldDescriptor, v protoreflect.Value, o EncOpts) (any, error) {
+	// The field-level codec annotations are documented as "valid on <kind> fields"; a map field is not a field of its value
+	// kind, and none of the generators gives the annotation a meaning there: map values keep the default mapping.
+	if annFd.IsMap() {
+		annFd = kindFd
+	}
 	switch kindFd.Kind() {
 	case protoreflect.BoolKind:
 		return v.Bool(), nil
